@@ -22,8 +22,8 @@ PROPERTIES = ["C16"]
 MANIFEST = {
     "C16": {
         "technique": "Lean 4 proof about an executable model of src/Document/Xml.cpp (skipSpace/comment loop, readToken, parseElement/content loop with cursor rewind, processing-instruction loop, unescapeString/escapeString, Element::toString) + differential correspondence model vs the real Xml.cpp (ASan/UBSan, exactly sized heap copies, watchdog, allocation budget) + independent Python reference (strict regex tokenizer with tag stack, xml.etree, own serialiser, escape/unescape, position checks)",
-        "text": "Machine-checked theorems over ALL byte strings / ALL element trees of the model: parse_total (the loop fuel text-length+2 handed to every loop and to the recursion is never exhausted), parse_no_oob (every read goes through peek/cstr which yield .oob behind the terminator; never reached), error_pos_inside (a reported line/column is exactly the line/column of an offset 0..length of the text, CR LF / CR / LF line ends), comments_are_whitespace (in front of a comment <!--body--> with no earlier '-->' skipSpace continues exactly as its outer loop does behind it, with right line bookkeeping; skipSpace is the only white-space skipper), pi_before_root_partial (a <?..?> whose body has no '<' and no '?>' — lone '?' and line breaks allowed — is stepped over by one round of the prologue loop), escape_unescape (unescape(escape s) = s for text and attribute mode), roundtrip / roundtrip_element / roundtrip_inside (parse(toString e) = e up to recorded line/column for every tree with well-formed names, distinct attribute keys, arbitrary NUL-free values, non-blank non-adjacent texts; by mutual induction on the tree with the parser positioned inside a larger text).  The model is tied to the current Xml.cpp on every run by executing identical op lines (parse, tostr, rt = Xml::toString then parse, esc, unesc, copy) on both and comparing ok/fail, error line/column/message class, the dump of the parsed tree with element positions, and serialised bytes: every byte string of length <= 3 (thorough 4) over a 14-symbol markup alphabet, all small element bodies / attribute lists, generated decorated documents (comments next to text, processing instructions with line breaks, entity and numeric references, both quote kinds), mutated and truncated documents, generated element trees incl. depth 1000.",
-        "note": "Trusted: Lean kernel + propext/Classical.choice/Quot.sound; the hand translation of Xml.cpp into the model (validated by the correspondence run, not proved) — it mirrors the REPAIRED sources (fixes/xml/0001-0004: line breaks in attribute values as &#10;/&#13;, no endless loop on a comment next to text, rewind after a failed look-ahead, line breaks counted inside <?..?>); entity table and escape conditions are written by hand in the model (not generated) and covered by esc/unesc on every single byte and all short strings.  libnstd String/HashMap/List are used as given (HashMap iteration = insertion order, append replaces an existing key's value); libc strpbrk/strchr/strncmp/strlen are list functions on the C string at a checked offset; glibc sscanf(\"#%u\") is modelled from its observed behaviour (white space, sign, strtoul saturation, cut to 32 bit).  pi_before_root is proved only for bodies without '<' (OPEN statement in Props.lean: behind a '?'/line break inside an instruction the code also skips a comment, so bodies with '<!--' behave differently).  'copies of element values are independent': in the model values are immutable; on the C++ side only Element-level copies (copy constructor, assignment, edits of the copy, destruction of the source first) are exercised by the `copy` op under ASan — Xml::Variant assignment and mutable toElement() on a shared value (defects D15/D16) belong to the Rc/Variant area and are kept out of these generators.  Stack depth of the recursive C++ parser is not modelled (documents nested 1000 deep are run; 10000 deep overflows the stack, outside the property's bound).  int overflow of line/column not modelled.  Allocation never fails.",
+        "text": "Machine-checked theorems over ALL byte strings / ALL element trees of the model: parse_total (the loop fuel text-length+2 handed to every loop and to the recursion is never exhausted), parse_no_oob (every read goes through peek/cstr which yield .oob behind the terminator; never reached), error_pos_inside (a reported line/column is exactly the line/column of an offset 0..length of the text, CR LF / CR / LF line ends), comments_are_whitespace (in front of a comment <!--body--> with no earlier '-->' skipSpace continues exactly as its outer loop does behind it, with right line bookkeeping; skipSpace is the only white-space skipper), pi_before_root_partial (a <?..?> whose body has no '<' and no '?>' — lone '?' and line breaks allowed — is stepped over by one round of the prologue loop), escape_unescape (unescape(escape s) = s for text and attribute mode), escape_no_overflow (escapeString's own buffer management — initial slack, reserve at every escape, String::detach rounding, raw pointer writes — modelled with checked memory over constants regenerated from the sources: never a write at or behind the capacity, buffer = escape s), roundtrip / roundtrip_element / roundtrip_inside (parse(toString e) = e up to recorded line/column for every tree with well-formed names, distinct attribute keys, arbitrary NUL-free values, non-blank non-adjacent texts; by mutual induction on the tree with the parser positioned inside a larger text).  The model is tied to the current Xml.cpp on every run by executing identical op lines (parse, tostr, rt = Xml::toString then parse, esc, unesc, copy) on both and comparing ok/fail, error line/column/message class, the dump of the parsed tree with element positions, and serialised bytes, and for escm the capacity of the String escapeString returns: every byte string of length <= 3 (thorough 4) over a 14-symbol markup alphabet, all small element bodies / attribute lists, generated decorated documents (comments next to text, processing instructions with line breaks, entity and numeric references, both quote kinds), mutated and truncated documents, generated element trees incl. depth 1000, long values with many escapes swept across the capacity boundaries of escapeString's buffer (runs of 1..131 of each escapable byte, tails 0..3, plain heads, dense random values).",
+        "note": "Trusted: Lean kernel + propext/Classical.choice/Quot.sound; the hand translation of Xml.cpp into the model (validated by the correspondence run, not proved) — it mirrors the REPAIRED sources (fixes/xml/0001-0004: line breaks in attribute values as &#10;/&#13;, no endless loop on a comment next to text, rewind after a failed look-ahead, line breaks counted inside <?..?>); entity table and escape conditions are written by hand in the model (not generated; the buffer constants of escapeString ARE generated, tools/areas/xml.py gen -> Nstd/Generated/XmlEscape.lean) and covered by esc/unesc on every single byte and all short strings.  libnstd String/HashMap/List are used as given (HashMap iteration = insertion order, append replaces an existing key's value); libc strpbrk/strchr/strncmp/strlen are list functions on the C string at a checked offset; glibc sscanf(\"#%u\") is modelled from its observed behaviour (white space, sign, strtoul saturation, cut to 32 bit).  pi_before_root is proved only for bodies without '<' (OPEN statement in Props.lean: behind a '?'/line break inside an instruction the code also skips a comment, so bodies with '<!--' behave differently).  'copies of element values are independent': in the model values are immutable; on the C++ side only Element-level copies (copy constructor, assignment, edits of the copy, destruction of the source first) are exercised by the `copy` op under ASan — Xml::Variant assignment and mutable toElement() on a shared value (defects D15/D16) belong to the Rc/Variant area and are kept out of these generators.  Stack depth of the recursive C++ parser is not modelled (documents nested 1000 deep are run; 10000 deep overflows the stack, outside the property's bound).  int overflow of line/column not modelled.  Allocation never fails.",
         "design_ref": "DESIGN.md 3/C16",
     }
 }
@@ -34,6 +34,57 @@ DRIVER = "drv_xml"
 HARNESS_SOURCES = ["xml.cpp"] + [C.REPO / "src" / f for f in
                                  ("String.cpp", "Memory.cpp", "Error.cpp", "File.cpp", "Debug.cpp", "Directory.cpp",
                                   "Process.cpp", "Mutex.cpp", "Time.cpp")]
+
+
+# ---- translator: the constants of escapeString's buffer management, regenerated from the sources on every run ----
+GEN_FILE = C.LEAN / "Nstd" / "Generated" / "XmlEscape.lean"
+RE_ESC_BODY = re.compile(r"String Xml::Private::escapeString\(const String& str, bool attributeValue\)\s*\{(.*?)\n\}", re.S)
+
+
+def gen(ctx=None, repo=None):
+    """writes lean/Nstd/Generated/XmlEscape.lean: initial slack of `String result(str.length() + N)`, the constant K of
+    `result.reserve(result.length() + escapeString.length() + K + (end - i))`, the number of bytes written per escape
+    ('&' + name + ';') and the rounding mask of String::detach.  A source that no longer has these shapes is a broken tie."""
+    repo = repo or C.REPO
+    try:
+        src = (repo / "src/Document/Xml.cpp").read_text()
+        hpp = (repo / "include/nstd/String.hpp").read_text()
+    except OSError as e:
+        return False, f"cannot read sources: {e}"
+    m = RE_ESC_BODY.search(src)
+    if not m:
+        return False, "Xml::Private::escapeString(const String&, bool) not found"
+    body = m.group(1)
+    m1 = re.search(r"String result\(str\.length\(\) \+ (\d+)\);", body)
+    m2 = re.findall(r"result\.reserve\(([^;]*)\);", body)
+    m2k = re.fullmatch(r"result\.length\(\) \+ escapeString\.length\(\) \+ (\d+) \+ \(end - i\)", m2[0].strip()) if len(m2) == 1 else None
+    writes = re.search(r"result\.resize\(dest - destStart\);\s*result\.reserve\([^;]*\);\s*destStart = result;\s*dest = destStart \+ result\.length\(\);\s*"
+                       r"\*\(dest\+\+\) = '&';\s*Memory::copy\(dest, \(const char\*\)escapeString, escapeString\.length\(\) \* sizeof\(char\)\);\s*"
+                       r"dest \+= escapeString\.length\(\);\s*\*\(dest\+\+\) = ';';", body)
+    loop = re.search(r"for\(const char\* i = str, \* end = i \+ str\.length\(\); i < end; \+\+i\)", body)
+    m3 = re.search(r"void detach\(usize copyLength, usize minCapacity\).*?usize capacity = minCapacity \| 0x([0-9a-fA-F]+);", hpp, re.S)
+    if not (m1 and m2k and writes and loop and m3):
+        miss = [n for n, x in (("initial capacity", m1), ("reserve expression", m2k), ("write sequence of an escape", writes),
+                               ("loop header", loop), ("String::detach rounding", m3)) if not x]
+        return False, "escapeString/String::detach no longer have the translated shape: " + ", ".join(miss)
+    text = ("/- generated by tools/areas/xml.py (gen) from src/Document/Xml.cpp and include/nstd/String.hpp — do not edit -/\n"
+            "namespace Nstd.Xml.Generated\n\n"
+            f"/-- `String result(str.length() + N)` -/\ndef escInitialSlack : Nat := {int(m1.group(1))}\n\n"
+            f"/-- `result.reserve(result.length() + escapeString.length() + K + (end - i))` -/\ndef escReserveExtra : Nat := {int(m2k.group(1))}\n\n"
+            "/-- bytes written per escape besides the name: `&` and `;` -/\ndef escFrame : Nat := 2\n\n"
+            f"/-- `String::detach`: `capacity = minCapacity | 0x…` -/\ndef capRoundMask : Nat := {int(m3.group(1), 16)}\n\n"
+            "end Nstd.Xml.Generated\n")
+    GEN_FILE.parent.mkdir(parents=True, exist_ok=True)
+    if not GEN_FILE.exists() or GEN_FILE.read_text() != text:
+        GEN_FILE.write_text(text)
+    return True, "ok"
+
+
+def setup():
+    """tools/setup.py: regenerate lean/Nstd/Generated/XmlEscape.lean before the Lean build"""
+    ok, msg = gen()
+    if not ok:
+        print("xml gen:", msg)
 
 
 def build(ctx):
@@ -620,6 +671,18 @@ def ref_line(op, impl):
             b = unhx(w[2])
             STATS["esc"] += 1
             return "bad-op" if b"\x00" in b else "str " + hx(py_esc(b, w[1] == "1"))
+        if w[0] == "escm" and len(w) == 3 and w[1] in ("0", "1"):
+            b = unhx(w[2])
+            if b"\x00" in b:
+                return "bad-op"
+            STATS["esc"] += 1
+            want = hx(py_esc(b, w[1] == "1"))
+            # bytes from the independent escape; the capacity is the model's business, here only: it holds the result
+            if impl is not None and impl.startswith("mem "):
+                t = impl.split(" ")
+                if len(t) == 3 and t[1].isdigit() and t[2] == want and int(t[1]) >= len(py_esc(b, w[1] == "1")):
+                    return impl
+            return f"mem <capacity >= length> {want}"
         if w[0] == "unesc" and len(w) == 2:
             b = unhx(w[1])
             STATS["unesc"] += 1
@@ -934,6 +997,7 @@ def capacity_ops(rng, quick):
     for i, v in enumerate(vals):
         h = hx(v)
         ops.append(f"esc 1 {h}")
+        ops.append(f"escm {i % 2} {h}")
         if v.strip(WSB):
             ops.append(f"esc 0 {h}")
             ops.append(f"rt (61,t{v.hex()})")
@@ -945,8 +1009,10 @@ def capacity_ops(rng, quick):
         n = rng.choice([30, 45, 60, 80, 120, 200, 300])
         v = b"".join(rng.choice(dense) for _ in range(n + rng.randrange(8)))
         k = rng.random()
-        if k < 0.3:
+        if k < 0.15:
             ops.append(f"esc {rng.randrange(2)} {hx(v)}")
+        elif k < 0.3:
+            ops.append(f"escm {rng.randrange(2)} {hx(v)}")
         elif k < 0.6:
             ops.append(f"rt (61@6b={v.hex()}@62={rnd_value(rng).hex()})")
         elif k < 0.8:
@@ -1039,7 +1105,7 @@ def histories_for(ctx):
     for piece in NUM_ODD + NUM_CLEAN + STRAY:
         eops.append("unesc " + hx(b"x" + piece + b"y"))
     for c in range(1, 256):                      # the escape condition / entity table on every byte value
-        eops += [f"esc 0 {c:02x}", f"esc 1 {c:02x}", f"esc 1 61{c:02x}62", f"unesc {c:02x}", f"unesc 26{c:02x}3b", f"unesc 2623{c:02x}3b"]
+        eops += [f"escm 0 {c:02x}", f"escm 1 {c:02x}", f"esc 0 {c:02x}", f"esc 1 {c:02x}", f"esc 1 61{c:02x}62", f"unesc {c:02x}", f"unesc 26{c:02x}3b", f"unesc 2623{c:02x}3b"]
     counts["esc/unesc ops"] = len(eops)
     hs += chunks(eops, 8)
 
@@ -1092,7 +1158,7 @@ def opinion_stats(hs, ref_outs):
 
 def check(ctx):
     ctx.assumptions += ASSUMPTIONS
-    proof_ok = C.proof_stage(ctx, PROPS, [DRIVER], leanchecker=(ctx.tier == "thorough"))
+    proof_ok = C.proof_stage(ctx, PROPS, [DRIVER], gen=gen, leanchecker=(ctx.tier == "thorough"))
     harness = build(ctx)
     if harness is None or not C.driver_path(DRIVER).exists():
         return
